@@ -214,7 +214,8 @@ PROPS["C17"] = dict(
     proof_files=["Proofs/OnceInit.v", "Tie/Cell.v", "Props/C17.v"],
     proof_targets=["Props/C17.vo"],
     props_module="Props.C17",
-    theorems=["C17_code_as_modelled", "C17_code_get_or_init_is_get_or_try_init", "C17_initialised_once_all_schedules", "C17_each_dropped_exactly_once",
+    theorems=["C17_code_as_modelled", "C17_code_get_or_init_is_get_or_try_init", "C17_code_constructors_agree_with_the_once_state",
+              "C17_initialised_once_all_schedules", "C17_each_dropped_exactly_once",
               "C17_no_drop_path_never_drops_the_seed", "C17_nonvacuous"],
     engines=[("oncediff", [])],
     rule="oncediff: every outcome script over {succeed, fail, panic} up to length 4 (quick) / 5 (thorough) "
